@@ -1,9 +1,11 @@
 package main
 
 import (
+	"bytes"
 	"encoding/base64"
 	"fmt"
 	"strconv"
+	"strings"
 	"time"
 
 	"github.com/matrix-org/gomatrixserverlib/tokens"
@@ -179,6 +181,62 @@ func init() {
 		final[6] = B(strconv.FormatInt(now, 10))
 		return final, out
 	})
+	// [srv; loc; key; user; now(filled in)]: issued under server name loc, validated by srv
+	RegisterImpl("C20.validate_at", func(args [][]byte) ([][]byte, []byte) {
+		final := append([][]byte{}, args...)
+		var out []byte
+		now := withStableClock(func() {
+			tok, err := tokens.GenerateLoginToken(tokens.TokenOptions{ServerPrivateKey: args[2], ServerName: string(args[1]), UserID: string(args[3]), Duration: 3600})
+			if err != nil {
+				out = B("generr")
+				return
+			}
+			out = verdict(tokens.ValidateToken(tokens.TokenOptions{ServerPrivateKey: args[2], ServerName: string(args[0]), UserID: string(args[3])}, tok))
+		})
+		final[4] = B(strconv.FormatInt(now, 10))
+		return final, out
+	})
+	// [kind; n]: a valid token presented in another ENCODING of the same macaroon (or with its
+	// unsigned location rewritten): every one is an altered token
+	RegisterImpl("C20.reencode", func(args [][]byte) ([][]byte, []byte) {
+		op := tokens.TokenOptions{ServerPrivateKey: []byte("aSecretKey"), ServerName: "srv.example", UserID: "@alice:example.org", Duration: 3600}
+		tok, err := tokens.GenerateLoginToken(op)
+		if err != nil {
+			return args, B("generr")
+		}
+		n, _ := strconv.Atoi(string(args[1]))
+		bin, _ := base64.RawURLEncoding.DecodeString(tok)
+		alt := tok
+		switch string(args[0]) {
+		case "append": // bytes after the macaroon
+			alt = base64.RawURLEncoding.EncodeToString(append(append([]byte{}, bin...), bytes.Repeat([]byte{byte(n)}, 1+n%5)...))
+		case "newline": // CR / LF inside or after the base64 text
+			i := n % (len(tok) + 1)
+			alt = tok[:i] + []string{"\n", "\r", "\r\n"}[n%3] + tok[i:]
+		case "trailing-bits": // unused low bits of the last base64 character
+			const alpha = "ABCDEFGHIJKLMNOPQRSTUVWXYZabcdefghijklmnopqrstuvwxyz0123456789-_"
+			last := strings.IndexByte(alpha, tok[len(tok)-1])
+			alt = tok[:len(tok)-1] + string(alpha[(last&^3)|((last+1+n)&3)])
+			if alt == tok {
+				alt = tok[:len(tok)-1] + string(alpha[last^1])
+			}
+		case "padding":
+			alt = tok + strings.Repeat("=", 1+n%2)
+		case "location": // the unsigned location rewritten to another name of the same length
+			alt = base64.RawURLEncoding.EncodeToString(bytes.Replace(bin, []byte("srv.example"), []byte("evl.example"), 1))
+		case "std-alphabet":
+			alt = base64.RawStdEncoding.EncodeToString(bin)
+		case "same":
+			return args, verdict(errIfNot(tokens.ValidateToken(op, alt) == nil && alt == tok))
+		}
+		if alt == tok {
+			return args, B("refused") // the alteration happened to be the identity
+		}
+		if _, uerr := tokens.GetUserFromToken(alt); uerr == nil && string(args[0]) != "location" {
+			return args, B("ok (GetUserFromToken accepted the altered token)")
+		}
+		return args, verdict(tokens.ValidateToken(op, alt))
+	})
 	RegisterImpl("C20.verify_expiry", func(args [][]byte) ([][]byte, []byte) {
 		now, _ := strconv.ParseInt(string(args[1]), 10, 64)
 		if tokens.VerifVerifyExpiry(string(args[0]), now) {
@@ -198,25 +256,10 @@ func init() {
 		bit, _ := strconv.Atoi(string(args[3]))
 		pos = pos % len(bin)
 		bin[pos] ^= 1 << uint(bit%8)
-		// the location field is not authenticated by macaroons and is not part of the property
-		var m macaroon.Macaroon
-		if m.UnmarshalBinary(bin) == nil {
-			var orig macaroon.Macaroon
-			ob, _ := base64.RawURLEncoding.DecodeString(tok)
-			_ = orig.UnmarshalBinary(ob)
-			if string(m.Id()) == string(orig.Id()) && string(m.Signature()) == string(orig.Signature()) && len(m.Caveats()) == len(orig.Caveats()) {
-				same := true
-				for i, c := range m.Caveats() {
-					if string(c.Id) != string(orig.Caveats()[i].Id) {
-						same = false
-					}
-				}
-				if same {
-					return args, B("refused") // only unauthenticated framing/location changed: outside the claim
-				}
-			}
-		}
-		return args, verdict(tokens.ValidateToken(tokens.TokenOptions{ServerPrivateKey: args[0], UserID: string(args[1])}, base64.RawURLEncoding.EncodeToString(bin)))
+		// every altered token must be refused: the location (the issuing server's name, outside the
+		// signature) is compared with the validating server's name, and only the canonical
+		// serialisation is a token (repairs of F96, F98)
+		return args, verdict(tokens.ValidateToken(tokens.TokenOptions{ServerPrivateKey: args[0], ServerName: "srv", UserID: string(args[1])}, base64.RawURLEncoding.EncodeToString(bin)))
 	})
 	RegisterProp("C20", genC20)
 }
@@ -230,7 +273,9 @@ func genC20(c *Ctx) {
 		// beyond what a time.Duration in nanoseconds can hold (about 292 years)
 		"9223372037", "-9223372037", "10000000000", "-10000000000", "4000000000000",
 		// expiry instants at the low end of int64 (the sum with the clock stays inside int64)
-		"-9223372036854775808", "-9223372036854775807", "-4611686018427387904"}
+		"-9223372036854775808", "-9223372036854775807", "-4611686018427387904",
+		// the sum with the clock passes the largest instant: the token expires there (F97)
+		"9223372036854775807", "9223372035000000000"}
 	pick := func(l []string) string { return l[c.Rng.Intn(len(l))] }
 
 	// 1. issue: id + caveats must be exactly what the model mints
@@ -351,10 +396,32 @@ func genC20(c *Ctx) {
 		c.Run("C20.verify_expiry", Args(t, "100"), "C20.verify_expiry", "", "syntax")
 		c.Count("verify_expiry")
 	}
+	// 4b. the issuing server: validated by the same name, another name, no name
+	for _, loc := range []string{"srv.example", "other.example", "s", "SRV.example"} {
+		for _, srv := range []string{"srv.example", "other.example", "", "srv.example ", "SRV.example"} {
+			c.Run("C20.validate_at", Args(srv, loc, "aSecretKey", "@alice:example.org", ""), "C20.validate_at", "C20.prop.validate_at", "issuing server "+loc+" validated by "+srv)
+			c.Count("validate_at")
+		}
+	}
+	// 4c. other encodings of the same macaroon, rewritten location
+	c.Run("C20.reencode", Args("same", "0"), "C20.const_ok", "", "the token itself")
+	for _, kind := range []string{"append", "newline", "trailing-bits", "padding", "location", "std-alphabet"} {
+		for n := 0; n < c.Scale(12, 60); n++ {
+			c.Run("C20.reencode", Args(kind, strconv.Itoa(n*7+c.Rng.Intn(7))), "C20.const_refused", "", "re-encoded: "+kind)
+			c.Count("reencode/" + kind)
+		}
+	}
 	// 5. byte-level alterations
 	n = c.Scale(300, 5000)
 	for i := 0; i < n; i++ {
 		c.Run("C20.flip", Args("aSecretKey", "@alice:example.org", strconv.Itoa(c.Rng.Intn(4096)), strconv.Itoa(c.Rng.Intn(8))), "C20.const_refused", "", "bitflip")
 		c.Count("bitflip")
 	}
+}
+
+func errIfNot(ok bool) error {
+	if ok {
+		return nil
+	}
+	return fmt.Errorf("no")
 }
